@@ -542,9 +542,42 @@ var filterStats struct {
 // genFilter returns a filter string and its BER bytes such that go-ldap
 // compiles it and the compile/decompile pair round-trips (the property's own
 // precondition); candidates failing that are counted and skipped.
+// genBigFilter: filters with many composite nodes - wide (an OR over dozens of ANDs), deep (a chain of NOTs and
+// single-child ANDs) and long flat lists.
+func genBigFilter(r *Rand) *fnode {
+	leaf := func(i int) *fnode { return &fnode{kind: "=", attr: "cn", val: fmt.Sprintf("v%d", i)} }
+	switch r.Intn(3) {
+	case 0:
+		n := &fnode{kind: "|"}
+		for i, m := 0, pick(r, []int{40, 63, 64, 65, 100, 200}); i < m; i++ {
+			n.kids = append(n.kids, &fnode{kind: "&", kids: []*fnode{leaf(i), leaf(i + 1000)}})
+		}
+		return n
+	case 1:
+		n := leaf(0)
+		for i, m := 0, pick(r, []int{20, 40, 64, 65, 90}); i < m; i++ {
+			if i%2 == 0 {
+				n = &fnode{kind: "!", kids: []*fnode{n}}
+			} else {
+				n = &fnode{kind: "&", kids: []*fnode{n}}
+			}
+		}
+		return n
+	default:
+		n := &fnode{kind: "&"}
+		for i, m := 0, pick(r, []int{64, 65, 300, 1000}); i < m; i++ {
+			n.kids = append(n.kids, leaf(i))
+		}
+		return n
+	}
+}
+
 func genFilter(r *Rand) (string, []byte) {
 	for {
 		s := genFilterAST(r, 0).String()
+		if r.Chance(2) {
+			s = genBigFilter(r).String()
+		}
 		filterStats.Lock()
 		filterStats.generated++
 		filterStats.Unlock()
